@@ -14,7 +14,7 @@ from .core import sm, X, call
 from smoothmath import Point
 
 OPS = ["at", "atnum", "partial", "partial_early", "pobj_new", "pobj_at", "pobj_expr", "diff_at",
-       "diff_early_at", "located", "normalize", "deriv", "component_at", "fail_missing", "compose"]
+       "diff_early_at", "located", "normalize", "deriv", "component_at", "fail_missing", "compose", "ld_new", "ld_query"]
 
 
 def make_pool(rng: random.Random, k: int, depth: int, names=("x", "y")) -> list:
@@ -77,6 +77,7 @@ def random_ops(rng: random.Random, pool: list, length: int) -> list[dict]:
     names = sorted(set().union(*(e._variable_names for e in pool))) or ["x"]
     stock = [g.point(names) for _ in range(3)]      # points come back: "the same point again" histories
     ncomp = 0
+    nld = 0
     for _ in range(length):
         i = rng.randrange(len(pool) + ncomp)
         e = pool[i] if i < len(pool) else pool[0]       # composed members: variables unknown here, use the stock
@@ -102,6 +103,15 @@ def random_ops(rng: random.Random, pool: list, length: int) -> list[dict]:
             else:
                 op["j"] = rng.randrange(npobj)
                 op["style"] = rng.randrange(3)      # for Differential objects: at().component / component_at / component().at
+        if kind == "ld_new":
+            op["k"] = nld
+            nld += 1
+            op["j"] = rng.randrange(npobj) if npobj and rng.random() < 0.7 else -1
+        if kind == "ld_query":
+            if nld == 0:
+                op["op"] = "located"
+            else:
+                op["k"] = rng.randrange(nld)
         if kind == "compose":
             op["shape"] = rng.randrange(6)
             op["r"] = rng.randrange(8)
@@ -137,6 +147,13 @@ def directed_prefixes(rng: random.Random, pool: list) -> list[list[dict]]:
          {"op": "normalize", "i": len(pool), "p": P, "x": x}, {"op": "compose", "i": j, "p": P, "x": x, "r": 1, "shape": 3},
          {"op": "normalize", "i": len(pool) + 1, "p": Q, "x": x}, {"op": "partial_early", "i": len(pool), "p": Q, "x": x},
          {"op": "at", "i": len(pool) + 1, "p": Q, "x": x}],
+        # located differentials the caller kept, queried after the object that made them moved on
+        [{"op": "pobj_new", "i": j, "j": 0, "p": P, "x": x, "kind": "FE"}, {"op": "ld_new", "i": j, "j": 0, "k": 0, "p": P, "x": x},
+         {"op": "ld_new", "i": j, "j": 0, "k": 1, "p": Q, "x": x}, {"op": "ld_query", "i": j, "k": 0, "p": P, "x": x},
+         {"op": "pobj_new", "i": j, "j": 1, "p": P, "x": x, "kind": "F"}, {"op": "ld_new", "i": j, "j": 1, "k": 2, "p": Q, "x": x},
+         {"op": "ld_new", "i": j, "j": 1, "k": 3, "p": P, "x": x}, {"op": "ld_query", "i": j, "k": 2, "p": P, "x": x},
+         {"op": "ld_new", "i": j, "j": -1, "k": 4, "p": P, "x": x}, {"op": "at", "i": j, "p": Q, "x": x},
+         {"op": "ld_query", "i": j, "k": 4, "p": P, "x": x}, {"op": "ld_query", "i": j, "k": 1, "p": P, "x": x}],
         # the same persistent object at the same point again, the expression evaluated elsewhere in between
         [{"op": "pobj_new", "i": j, "j": 0, "p": P, "x": x}, {"op": "pobj_at", "j": 0, "i": j, "p": P, "x": x},
          {"op": "at", "i": j, "p": Q, "x": x}, {"op": "pobj_at", "j": 0, "i": j, "p": P, "x": x},
@@ -253,6 +270,8 @@ class Runner:
         self.pobjs: dict[int, object] = {}
         self.pobj_src: dict[int, tuple] = {}
         self.pobj_expr_called: dict[int, bool] = {}
+        self.lds: dict[int, object] = {}    # LocatedDifferential objects the caller kept
+        self.ld_src: dict[int, tuple] = {}
         self.returned: list = []            # expression objects handed out by earlier operations
         self.extra_texts: list[str] = []    # structure of the pool members composed from them, as built
 
@@ -284,6 +303,25 @@ class Runner:
             return call(lambda: sm.Partial(e, x).at(p))
         if k == "partial_early":
             return call(lambda: sm.Partial(e, x, compute_early=True).at(p), timeout=30)
+        if k == "ld_new":
+            # a LocatedDifferential the caller keeps: from a persistent Differential object if there is one
+            o = self.pobjs.get(op.get("j", -1))
+            if isinstance(o, sm.Differential):
+                r = call(lambda: o.at(p), timeout=30)
+                self.ld_src[op["k"]] = ("obj", self.pobj_src[op["j"]], op["p"])
+            else:
+                r = call(lambda: sm.LocatedDifferential(e, p))
+                self.ld_src[op["k"]] = ("direct", op["i"], op["p"])
+            if r[0] != "ok":
+                self.lds.pop(op["k"], None)
+                return r
+            self.lds[op["k"]] = r[1]
+            return ("ok", None)
+        if k == "ld_query":
+            L = self.lds.get(op["k"])
+            if L is None:
+                return ("ok", None)
+            return call(lambda: L.component(x))
         if k == "pobj_new":
             kind = op.get("kind", "P")
             r = call(lambda: make_obj(kind, e, x), timeout=30)
@@ -350,6 +388,19 @@ def fresh_result(pool_texts: list[str], op: dict, src: tuple | None, expr_called
     if op["op"] == "compose":
         return ("ok", None)
     r = Runner(build_pool(pool_texts))
+    if op["op"] == "ld_query":
+        how = src
+        if how is None:
+            return ("ok", None)
+        p = wire.build_point(how[2])
+        if how[0] == "obj":
+            i, x0, kind = how[1]
+            made = call(lambda: make_obj(kind, r.pool[i], x0).at(p), timeout=30)
+        else:
+            made = call(lambda: sm.LocatedDifferential(r.pool[how[1]], p))
+        if made[0] != "ok":
+            return ("ok", None)
+        return call(lambda: made[1].component(op.get("x", "x")))
     if op["op"] in ("pobj_at", "pobj_expr"):
         j = op["j"]
         if src is None:
